@@ -82,6 +82,10 @@ def tasks(tier):
                                                                                 why="the assembled matrix is the derivative of the assembled vector only if both evaluate the material as a function of the current state alone")))
     for cfg in ("NeoHooke(bulk)", "NeoHooke(mu,bulk)", "Volumetric", "NeoHookeCompressible"):
         ts.append(("re-assembly %s" % cfg, "run_reassembly", dict(cfg=cfg)))
+    # the mixed-field matrix is assembled from the list of hessian blocks: block placement (upper-triangle list mirrored, full list row-major
+    # and not mirrored, None blocks) decides whether K is the derivative of r for materials that return either layout
+    ts.append(("block layout of mixed fields", "run_included", dict(modname="c02", fname="run_blocks", kwargs=dict(tier=tier), oid="C01.O9", select_oid="C02.O6",
+                                                                 why="the assembled matrix of a mixed-field body is the derivative of its vector only if every hessian block lands in its own (row field, column field) position")))
     ts.append(("loads", "run_loads", {}))
     ts.append(("multipoint", "run_multipoint", {}))
     ts.append(("pressure+cauchy", "run_surface", {}))
